@@ -188,7 +188,13 @@ class Trench:
 
             # Internal rectangle
             buffer_length = 2 * self.delta_floor
-            p = np.array([[[x, y] for (x, y) in self.block.buffer(-buffer_length).exterior.coords]], np.float32) * 1e3
+            inner = self.block.buffer(-buffer_length)
+            # the inset of a narrow or necked block is empty or made of several parts
+            if inner.is_empty:
+                return self.safe_inner_turns
+            if isinstance(inner, geometry.MultiPolygon):
+                inner = max(inner.geoms, key=lambda part: part.area)
+            p = np.array([[[x, y] for (x, y) in inner.exterior.coords]], np.float32) * 1e3
             xmin_int, ymin_int, dx_int, dy_int = lir.lir(p.astype(np.int32), np.int32) / 1e3
             xmax_int, ymax_int = xmin_int + dx_int, ymin_int + dy_int
 
